@@ -1,16 +1,54 @@
 import PyamgV.Proofs.ExtC03XThm
+
+/-! PyamgV (extension E38, C03): concrete recorded hierarchies for the extended cycle model, evaluated by the kernel
+(`decide +kernel`: no extra axioms): the hypothesis `AllOK` of the theorems is satisfiable for every smoother family, is
+violated by a stale matrix copy and by a wrong inverse block, and the recorded calls are not trivial. -/
 namespace PyamgV.C03X.Witness
 open PyamgV.C03 PyamgV.C03X
 
-/-- `[[2,-1],[-1,2]]` as CSR arrays -/
-def M2 : K.Csr Rat := ⟨2, #[0, 2, 4], #[0, 1, 0, 1], #[2, -1, -1, 2]⟩
+/-- `[[2,-1],[-1,2]]` dense, as CSR / CSC arrays and as one `2 × 2` BSR block with its exact inverse -/
 def A2 : Mat := [[2, -1], [-1, 2]]
-/-- the same matrix as one 2 × 2 BSR block with its exact inverse -/
+def M2 : K.Csr Rat := ⟨2, #[0, 2, 4], #[0, 1, 0, 1], #[2, -1, -1, 2]⟩
 def B2 : K.Bsr Rat := ⟨1, 2, #[0, 1], #[0], #[2, -1, -1, 2]⟩
 def Dinv2 : Array Rat := #[2/3, 1/3, 1/3, 2/3]
+def P2 : Mat := [[1], [1]]
+def R2 : Mat := [[1, 1]]
+/-- exact Galerkin coarse solve: `(R A P)⁻¹ = 1/2` -/
+def S2 : Mat := [[1/2]]
 
-def LX : LvlX := ⟨A2, [[1], [1]], [[1, 1]], .poly M2 [-1/5, 1] 2, .gsne (3/2) M2 1 .symmetric⟩
-def LB : LvlX := ⟨A2, [[1], [1]], [[1, 1]], .bgs B2 Dinv2 1 .forward, .schwarz M2 #[1/2, 1/2] #[0, 1, 2] #[0, 1] #[0, 1, 2] 1 .backward⟩
+/-- Chebyshev-like polynomial pre-smoother, symmetric Kaczmarz post-smoother -/
+def L1 : LvlX := ⟨A2, P2, R2, .poly M2 [-1/5, 1] 2, .gsne (3/2) M2 1 .symmetric⟩
+/-- block Gauss-Seidel / Schwarz with two one-point subdomains and the recorded "inverses" `1/2` -/
+def L2 : LvlX := ⟨A2, P2, R2, .bgs B2 Dinv2 1 .forward, .schwarz M2 #[1/2, 1/2] #[0, 1, 2] #[0, 1] #[0, 1, 2] 1 .backward⟩
+/-- block Jacobi / `jacobi_ne` -/
+def L3 : LvlX := ⟨A2, P2, R2, .bjac (2/3) B2 Dinv2 2, .jacne (1/2) M2 1⟩
+/-- `gauss_seidel_nr` on the CSC arrays / CF Jacobi with `C = {0}`, `F = {1}` -/
+def L4 : LvlX := ⟨A2, P2, R2, .gsnr 1 M2 1 .symmetric, .cfjac true (2/3) M2 [0] [1] 1 2 1⟩
+/-- SOR / Jacobi kernels -/
+def L5 : LvlX := ⟨A2, P2, R2, .gs (5/4) M2 1 .backward, .jac (2/3) M2 2⟩
 
-theorem lx_ok : AllOK [LX, LB] := by decide +kernel
+/-- **non-vacuity**: every smoother family has recorded calls satisfying the hypothesis of the theorems -/
+theorem all_ok : AllOK [L1, L2, L3, L4, L5] := by decide +kernel
+
+/-- a stale matrix copy (the closure holds the CSR arrays of `diag(2, 2)`, the level matrix is `A2`) is rejected -/
+theorem stale_copy_rejected :
+    ¬ (Sm.gsne 1 ⟨2, #[0, 1, 2], #[0, 1], #[2, 2]⟩ 1 .forward).OK A2 := by decide +kernel
+
+/-- an inverse block that is not the inverse of the diagonal block is rejected -/
+theorem wrong_inverse_rejected : ¬ (Sm.bjac 1 B2 #[1/2, 0, 0, 1/2] 1).OK A2 := by decide +kernel
+
+/-- ... and for it the conclusion fails: block Jacobi with that block moves the exact solution `x = (1, 1)` of
+`A2 x = (1, 1)`, so it is not of the form `x + Q (b − A x)` -- the hypothesis `LeftInvOK` cannot be dropped -/
+theorem wrong_inverse_moves_solution :
+    applySm A2 (Sm.bjac 1 B2 #[1/2, 0, 0, 1/2] 1) [1, 1] [1, 1] ≠ [1, 1] := by decide +kernel
+
+/-- concrete runs of the extended model (two levels, exact coarse solve) -/
+theorem run_V : cycX S2 .V 1 [L1] [1, 0] [0, 3] = [12487/12500, 24689/12500] := by decide +kernel
+theorem run_blocks : cycX S2 .W 1 [L2] [0, 0] [3, 0] = [2, 1] := by decide +kernel
+
+/-- the recorded calls do something: they are not the identity -/
+theorem poly_nontrivial : applySm A2 (.poly M2 [-1/5, 1] 2) [0, 0] [1, 0] ≠ [0, 0] := by decide +kernel
+
+theorem exact_solution : matVec A2 [1, 2] = [0, 3] := by decide +kernel
+
 end PyamgV.C03X.Witness
